@@ -12,7 +12,7 @@ LEVEL = "exploration"
 TECHNIQUE = "generated device geometries meshed through the public path; validity predicates (tiling, boundary, Euler characteristic) and a brute-force Voronoi oracle (half-plane clipping with shapely) for cell areas and dual edge lengths"
 RULE = (
     "case = generated film (box / ellipse / union of boxes, optionally reversed or resampled, rotated, off-centre) x 0..2 holes (ellipse, box, "
-    "L-shaped) x 0..4 terminals x max_edge_length x min_points x smoothing 0..30 x coherence length; every site, edge and triangle checked; "
+    "L-shaped) x 0..4 terminals x max_edge_length x min_points x smoothing 0..30 x coherence length x optional history (device copied, the copy translated in place; the original or the moved copy is examined); every site, edge and triangle checked; "
     "non-trivial = >= 50 sites of which >= 60 % satisfy the local-Delaunay/unencroached predicate (so that their cells are asserted); distinct by spec hash"
 )
 ASSUMPTIONS = [
@@ -26,8 +26,8 @@ LEVEL_NOTE = "Trusted: shapely half-plane clipping, shoelace areas, winding numb
 
 def budget(tier):
     if tier == "quick":
-        return dict(max_examples=150, workers=8, time_s=170, min_cases=50)
-    return dict(max_examples=5000, workers=16, time_s=1200, min_cases=100)
+        return dict(max_examples=260, workers=8, time_s=170, min_cases=80)
+    return dict(max_examples=5000, workers=16, time_s=1200, min_cases=160)
 
 
 @st.composite
@@ -37,7 +37,12 @@ def _case(draw, tier):
                         size=(3.5, 7.0 if not big else 11.0), min_mel=0.6 if not big else 0.45, max_mel=1.6, smooth=False).filter(gen.valid_device))
     d["mesh"]["smooth"] = draw(st.sampled_from([0, 0, 0, 1, 2, 5, 12, 30]))
     d["mesh"]["min_points"] = draw(st.sampled_from([None, None, 100, 250]))
-    return dict(device=d)
+    # the device whose mesh is examined may have a history: it was copied and the copy was moved in place (which, by the
+    # documentation, moves polygons and mesh together); either the original or the moved copy is then examined
+    hist = None
+    if draw(st.integers(0, 3)) == 0:
+        hist = dict(dx=draw(gen.rf(-6.0, 6.0)), dy=draw(gen.rf(-6.0, 6.0)), examine=draw(st.sampled_from(["original", "moved copy"])))
+    return dict(device=d, history=hist)
 
 
 def strategy(tier):
@@ -57,6 +62,13 @@ def check_case(spec):
     res = Result()
     dspec = spec["device"]
     dev = build.make_device_or_refuse(dspec)
+    shift = np.zeros(2)
+    hist = spec.get("history")
+    if hist:
+        moved = dev.copy()
+        moved.translate(dx=hist["dx"], dy=hist["dy"], inplace=True)
+        if hist["examine"] == "moved copy":
+            dev, shift = moved, np.array([hist["dx"], hist["dy"]])
     mesh = dev.mesh
     em = mesh.edge_mesh
     xi = dspec["layer"]["xi"]
@@ -64,8 +76,10 @@ def check_case(spec):
     T = mesh.elements
     E = em.edges
     n, ne, nt = len(P), len(E), len(T)
-    film = build.make_polygon(dspec["film"], "film").points
-    holes = [build.make_polygon(h, f"h{i}").points for i, h in enumerate(dspec["holes"])]
+    film = build.make_polygon(dspec["film"], "film").points + shift
+    holes = [build.make_polygon(h, f"h{i}").points + shift for i, h in enumerate(dspec["holes"])]
+    if hist:
+        res.label(f"history: copied, copy moved in place, {hist['examine']} examined")
     res.label(f"film={dspec['film']['kind']}", f"holes={len(holes)}", f"smooth={'0' if not dspec['mesh']['smooth'] else '>0'}")
     if any(h["kind"] == "union" for h in dspec["holes"]):
         res.label("non-convex hole")
@@ -270,7 +284,7 @@ def check_case(spec):
         maxb = float(bl.max())
         info = {t.name: t for t in dev.terminal_info()}
         for t in dspec["terminals"]:
-            tp = build.make_polygon(t["shape"], t["name"]).points
+            tp = build.make_polygon(t["shape"], t["name"]).points + shift
             covered = orc.polygon_perimeter_inside(film, tp) + sum(orc.polygon_perimeter_inside(h, tp) for h in holes)
             got = float(info[t["name"]].length)
             if abs(got - covered) > 2 * maxb + 0.02 * covered:
